@@ -283,7 +283,7 @@ def coq_compare(chk: Check, name: str, entries, fn: str):
     def one(f):
         return f[0], chk.coq_eval(f[0], f[1], timeout=600)
 
-    with ThreadPoolExecutor(max_workers=6) as ex:
+    with ThreadPoolExecutor(max_workers=8) as ex:
         for fname, (ok, out) in ex.map(one, files):
             if not ok:
                 problems.append({"file": fname, "output_tail": out[-1500:]})
@@ -383,7 +383,11 @@ def run(chk: Check):
         "kernel entry observed by replacing TensorMethod._evaluate on the instance (harness c10_run.py)",
         "code generation inside TensorMethod.__init__ (may refuse: DiagonalAccessError, NoKernelFoundError) not modelled",
     ]
+    import time
+    t0 = time.time()
     chk.coq_props()
+    timings = {"coq_props": round(time.time() - t0, 1)}
+    chk.extra["timings_s"] = timings
 
     corpus = sorted((VERIF / "corpus" / "C10").glob("*.json"))
     groups = []
@@ -422,6 +426,7 @@ def run(chk: Check):
         if got != want:
             chk.broken.append({"kind": "correspondence", "what": "the check's parser and parse_assignment disagree",
                                "assignment": t, "implementation": got, "check": want})
+    timings["impl_ctor"] = round(time.time() - t0, 1)
     cres = {d["cid"]: d for d in lines if "cid" in d}
     entries = []
     for c in ctor:
@@ -437,19 +442,22 @@ def run(chk: Check):
         chk.case(("ctor", c["kind"], c["assignment"], c["formats"]))
         chk.count("ctor:" + c["kind"])
         chk.count("ctor_outcome:" + (r.get("cls") or "ok"))
-    for fn in ("umatches", "rmatches"):
-        sub = [(i, a, b, o) for i, f, a, b, o in entries if f == fn]
-        failing, problems = coq_compare(chk, f"c10_ctor_{fn}", sub, fn)
-        for p in problems:
-            chk.broken.append({"kind": "model-evaluation", **p})
-        for i in failing:
-            c = ctor[i]
-            chk.broken.append({"kind": "correspondence", "what": "constructor outcome differs from the model",
-                               "case": c, "implementation": cres[i],
-                               "model": model_alone(chk, ctor_model_term(c)[0])})
+    ctor_entries = entries
+
+    def ctor_compare():
+        out = []
+        for fn in ("umatches", "rmatches"):
+            sub = [(i, a, b, o) for i, f, a, b, o in ctor_entries if f == fn]
+            out.append(coq_compare(chk, f"c10_ctor_{fn}", sub, fn))
+        return out
+
+    bg = ThreadPoolExecutor(max_workers=1)
+    ctor_future = bg.submit(ctor_compare)
 
     # 2. calls ------------------------------------------------------------------------------
-    results, constructions, crashes = run_groups(chk, groups)
+    timings["coq_ctor"] = round(time.time() - t0, 1)
+    results, constructions, crashes = run_groups(chk, groups, workers=8)
+    timings["impl_calls"] = round(time.time() - t0, 1)
     by_cid = {c["cid"]: (g, c) for g in groups for c in g["cases"]}
     for cr in crashes:
         g, c = by_cid.get(cr["last_started_cid"], (None, None))
@@ -512,6 +520,15 @@ def run(chk: Check):
                                 "implementation": {k: r.get(k) for k in ("outcome", "cls", "tag", "entered", "dims")}})
                     n_samples += 1
 
+    for failing, problems in ctor_future.result():
+        for p in problems:
+            chk.broken.append({"kind": "model-evaluation", **p})
+        for i in failing:
+            c = ctor[i]
+            chk.broken.append({"kind": "correspondence", "what": "constructor outcome differs from the model",
+                               "case": c, "implementation": cres[i],
+                               "model": model_alone(chk, ctor_model_term(c)[0])})
+    bg.shutdown()
     failing, problems = coq_compare(chk, "c10_calls", entries, "matches")
     for p in problems:
         chk.broken.append({"kind": "model-evaluation", **p})
@@ -524,6 +541,7 @@ def run(chk: Check):
                            "group": {**g, "cases": [c]}, "implementation": r,
                            "model": model_alone(chk, model_term(g, c))})
     chk.count("model_disagreements", len(failing))
+    timings["coq_calls"] = round(time.time() - t0, 1)
     chk.extra["searcher"] = "the single-fault enumeration above is the searcher (always run)"
 
 
